@@ -32,7 +32,8 @@ def make_raw(case):
         met["timestamps"] = ["d%d" % (9 - k) for k in range(ns)]
     elif tk == "duplicate":     # a repeated label (e.g. the DST fall-back hour)
         met["timestamps"] = ["2024-10-27T02:30"] * ns
-    towers = [dict(name="T%d" % k, lat=50.0 + 1e-4 * (k + 1), lon=11.0 + 2e-4 * (k + 1), z_m=3.0 + 0.7 * k) for k in range(nt)]
+    # towers of one height at different places (a transect of identical masts) or of different heights
+    towers = [dict(name="T%d" % k, lat=50.0 + 1e-4 * (k + 1), lon=11.0 + 2e-4 * (k + 1), z_m=3.0 + (0.0 if case.get("same_height") else 0.7 * k)) for k in range(nt)]
     return dict(domain=dict(nx=8, ny=8, xmax=80.0, ymax=80.0, nz=4, modes=[8, 8], halo=20.0, ref_lat=50.0, ref_lon=11.0),
                 towers=towers, met=met, solver=dict(closure="MOST", footprint=case["footprint"], precision="double"),
                 parallel=dict(use_cache=bool(case["cache"]), max_workers=case["workers"]))
@@ -184,7 +185,7 @@ def gen_case(rng, k):
     return dict(towers=int(rng.integers(1, 4)), steps=int(rng.integers(1, 6)), strategy=strategy, workers=int(rng.choice([1, 2, 3, 4, 5, 8, 12])),
                 order=str(rng.choice(["hash", "reverse", "perm", "perm"])), prelude_flux=bool(rng.random() < 0.3),
                 parent_threads=int(rng.choice([1, 4])), cache=bool(rng.random() < 0.5), footprint=bool(rng.random() < 0.7),
-                repeat_met=bool(rng.random() < 0.5), timestamps=str(rng.choice(["none", "ascending", "wrap", "descending", "duplicate"])), cseed=int(rng.integers(1 << 30)),
+                same_height=bool(rng.random() < 0.45), repeat_met=bool(rng.random() < 0.5), timestamps=str(rng.choice(["none", "ascending", "wrap", "descending", "duplicate"])), cseed=int(rng.integers(1 << 30)),
                 dseed=int(rng.integers(1 << 30)), max_delay=float(rng.choice([0.0, 0.3, 0.6])))
 
 
@@ -216,7 +217,8 @@ def run(rng, tier, deep):
         cases[2].update(towers=2, steps=4, workers=4, strategy="time", parent_threads=4, timestamps="wrap", max_delay=0.6, order="reverse")
     if len(cases) > 4:
         cases[3].update(towers=2, steps=3, workers=3, strategy="time", timestamps="duplicate", max_delay=0.6, repeat_met=False)
-        cases[4].update(towers=3, steps=2, workers=4, strategy="towers", timestamps="descending", max_delay=0.6, order="reverse")
+        cases[4].update(towers=3, steps=2, workers=4, strategy="towers", timestamps="descending", max_delay=0.6, order="reverse", same_height=True, cache=True,
+                        footprint=True)
     if len(cases) > 6:
         cases[5].update(towers=3, steps=3, workers=12, strategy="both", max_delay=0.9, order="perm", timestamps="none")
         cases[6].update(towers=1, steps=5, workers=5, strategy="both", max_delay=0.8, order="reverse", timestamps="ascending")
